@@ -34,6 +34,9 @@ def logical_ops():
     ops["rapid_absolute"] = mv("rapid_absolute", (-2, 0, 1))
     ops["ctx_abs_move"] = mv("ctx_abs_move", (1, 1, 0))
     ops["ctx_rel_move"] = mv("ctx_rel_move", (0, -3, 0.5))
+    # the body of the mode context raises after its move; the caller catches the error and carries on
+    ops["ctx_abs_move_raise"] = mv("ctx_abs_move_raise", (2, -1, 0))
+    ops["ctx_rel_move_raise"] = mv("ctx_rel_move_raise", (-1, 2, 0.5))
     ops["arc"] = shape(lambda p, d: c10.arc_case(p, d, 4.0, 90, None, 0))
     ops["arc-z"] = shape(lambda p, d: c10.arc_case(p, d, 3.0, 270, 2.0, 135))
     ops["arc_radius"] = shape(lambda p, d: c10.arc_radius_case(p, d, 5.0, 0.6, 30))
@@ -64,6 +67,21 @@ def apply(run, kind, largs, start):
         elif kind == "ctx_abs_move":
             with g.absolute_mode():
                 g.move(largs["target"])
+        elif kind == "ctx_abs_move_raise":
+            try:
+                with g.absolute_mode():
+                    g.move(largs["target"])
+                    raise KeyError("body failed")
+            except KeyError:
+                pass
+        elif kind == "ctx_rel_move_raise":
+            t = largs["target"]
+            try:
+                with g.relative_mode():
+                    g.move([t[i] - start[i] for i in range(3)])
+                    raise KeyError("body failed")
+            except KeyError:
+                pass
         elif kind == "ctx_rel_move":
             t = largs["target"]
             with g.relative_mode():
@@ -142,7 +160,7 @@ def run(tier, seed):
                 for h in itertools.product(names, repeat=2):
                     hists.append((s, d, h))
         # depth 3: plain-motion prefix of two ops, every op last
-        plain = ["move", "rapid_absolute", "ctx_rel_move"]
+        plain = ["move", "rapid_absolute", "ctx_rel_move", "ctx_abs_move_raise"]
         for h in itertools.product(plain, plain, names):
             hists.append((STARTS[1], "clockwise", h))
     else:
